@@ -128,7 +128,7 @@ def gen_op(rng: random.Random, cfg: dict, kind: str | None = None) -> dict:
             lineage=rng.choice([None] * 8 + ["of_track", "of_any"]),
         )
         if inval:
-            op["invalid"] = rng.choice(["exists", "no_time", "no_track", "no_pos", "no_pos", "partial_pos", "id_overflow", "bad_pixels"])
+            op["invalid"] = rng.choice(["exists", "no_time", "no_track", "no_pos", "no_pos", "partial_pos", "id_overflow", "bad_pixels", "bad_value"])
     elif kind == "delete_node":
         cls = ["any", "any", "leaf", "root", "div_parent", "div_child", "isolated", "skip_src", "one_child"]
         if fl.get("division_bias"):
